@@ -1860,3 +1860,287 @@ Proof.
 Qed.
 
 End Strict.
+
+(* ======================================================================== *)
+(* Part 6: the statements of C05 on reachable states                         *)
+(* ======================================================================== *)
+
+(* the searcher always delivers a config *)
+Definition searcher_ok (ops : list op) : Prop := Forall (fun o => o <> OSuggest false) ops.
+
+Lemma all_ok_false : forall ops, Forall (op_ok false) ops.
+Proof. intro ops. apply Forall_forall. intros o _ X. discriminate. Qed.
+
+Lemma all_ok_true : forall ops, searcher_ok ops -> Forall (op_ok true) ops.
+Proof. intros ops H. eapply Forall_impl; [|exact H]. intros o Ho _. exact Ho. Qed.
+
+Theorem no_error : forall rss md ops, check_bracket_rungs rss = true ->
+  exists st, run_from rss md ops = Ok st.
+Proof.
+  intros rss md ops CK. destruct (run_from_inv false rss md ops CK (all_ok_false ops)) as [st [E _]]. eauto.
+Qed.
+
+Lemma reach_inv : forall rss md ops st, check_bracket_rungs rss = true ->
+  run_from rss md ops = Ok st -> Inv false rss md st /\ rss_ok rss.
+Proof.
+  intros rss md ops st CK E. destruct (run_from_inv false rss md ops CK (all_ok_false ops)) as [st' [E' I]].
+  rewrite E in E'. inversion E'; subst. split; [exact I|apply check_bracket_rungs_ok; exact CK].
+Qed.
+
+Lemma reach_inv_strict : forall rss md ops st, check_bracket_rungs rss = true -> searcher_ok ops ->
+  run_from rss md ops = Ok st -> Inv true rss md st.
+Proof.
+  intros rss md ops st CK S E. destruct (run_from_inv true rss md ops CK (all_ok_true ops S)) as [st' [E' I]].
+  rewrite E in E'. inversion E'; subst. exact I.
+Qed.
+
+Lemma nth_error_map_seq : forall (f : nat -> nat) n j, (j < n)%nat -> nth_error (map f (seq 0 n)) j = Some (f j).
+Proof.
+  intros f n j H. rewrite nth_error_map. rewrite (nth_error_nth' (seq 0 n) 0%nat) by (rewrite seq_length; exact H).
+  rewrite seq_nth by exact H. reflexivity.
+Qed.
+
+Theorem offsets_cycle : forall rss md ops st, check_bracket_rungs rss = true ->
+  run_from rss md ops = Ok st ->
+  length (m_offsets (s_mgr st)) = length (m_brackets (s_mgr st)) /\
+  forall j b, nth_error (m_brackets (s_mgr st)) j = Some b ->
+    nth_error (m_offsets (s_mgr st)) j = Some (j mod length rss)%nat /\
+    map entry_shape (rungs b) = nth (j mod length rss) rss [] /\ bmode b = md.
+Proof.
+  intros rss md ops st CK E. destruct (reach_inv _ _ _ _ CK E) as [I _].
+  rewrite (iv_off _ _ _ _ I). split; [rewrite map_length, seq_length; reflexivity|].
+  intros j b Nb. split; [apply (nth_error_map_seq (fun j0 => (j0 mod length rss)%nat)); eapply nth_error_lt; eauto|].
+  assert (B := ic_b _ _ _ _ _ _ (iv_core _ _ _ _ I) _ _ Nb). split; [exact (bi_sys _ _ _ _ B)|exact (bi_mode _ _ _ _ B)].
+Qed.
+
+Theorem rung_filled_by_distinct : forall rss md ops st, check_bracket_rungs rss = true ->
+  run_from rss md ops = Ok st ->
+  forall j b, nth_error (m_brackets (s_mgr st)) j = Some b ->
+  forall k, (k < current_rung b)%nat ->
+    exists sl lv, nth_error (rungs b) k = Some (Filled sl lv) /\
+      nth_error (nth (j mod length rss) rss []) k = Some (length sl, lv) /\
+      Forall (fun s => snd s <> None) sl /\ NoDup (somes (map fst sl)) /\
+      (forall v, In (None, Some v) sl -> v = NaN).
+Proof.
+  intros rss md ops st CK E j b Nb k Hk. destruct (reach_inv _ _ _ _ CK E) as [I _].
+  assert (B := ic_b _ _ _ _ _ _ (iv_core _ _ _ _ I) _ _ Nb).
+  destruct (bi_done _ _ _ _ B k Hk) as [sl [lv [N [F [ND NN]]]]]. exists sl, lv. split; [exact N|].
+  split; [|auto]. rewrite <- (bi_sys _ _ _ _ B), nth_error_map, N. reflexivity.
+Qed.
+
+Lemma strict_rung : forall (sl : list slot),
+  Forall (fun s => snd s <> None) sl -> NoDup (somes (map fst sl)) ->
+  (forall v, ~ In (None, Some v) sl) ->
+  Forall (fun s => exists t v, s = (Some t, Some v)) sl /\ NoDup (map fst sl).
+Proof.
+  intros sl F ND NoN. rewrite Forall_forall in F. split.
+  - apply Forall_forall. intros [[t|] [v|]] I.
+    + eauto.
+    + exfalso. apply (F _ I). reflexivity.
+    + exfalso. exact (NoN v I).
+    + exfalso. apply (F _ I). reflexivity.
+  - rewrite (all_some_map (map fst sl)).
+    + apply nodup_map_Some. exact ND.
+    + intros x Hx. apply in_map_iff in Hx. destruct Hx as [[x' [w|]] [<- Hi]]; simpl.
+      * intros ->. exact (NoN w Hi).
+      * exfalso. apply (F _ Hi). reflexivity.
+Qed.
+
+Theorem rung_filled_by_distinct_strict : forall rss md ops st, check_bracket_rungs rss = true ->
+  searcher_ok ops -> run_from rss md ops = Ok st ->
+  forall j b, nth_error (m_brackets (s_mgr st)) j = Some b ->
+  forall k, (k < current_rung b)%nat ->
+    exists sl lv, nth_error (rungs b) k = Some (Filled sl lv) /\
+      nth_error (nth (j mod length rss) rss []) k = Some (length sl, lv) /\
+      Forall (fun s => exists t v, s = (Some t, Some v)) sl /\ NoDup (map fst sl).
+Proof.
+  intros rss md ops st CK S E j b Nb k Hk. assert (I := reach_inv_strict _ _ _ _ CK S E).
+  assert (B := ic_b _ _ _ _ _ _ (iv_core _ _ _ _ I) _ _ Nb).
+  destruct (bi_done _ _ _ _ B k Hk) as [sl [lv [N [F [ND NN]]]]]. exists sl, lv. split; [exact N|].
+  split; [rewrite <- (bi_sys _ _ _ _ B), nth_error_map, N; reflexivity|].
+  apply strict_rung; auto. intros v Hv. exact (bi_strict _ _ _ _ B eq_refl _ _ _ _ N Hv).
+Qed.
+
+Theorem current_rung_shape : forall rss md ops st, check_bracket_rungs rss = true ->
+  run_from rss md ops = Ok st ->
+  forall j b sl lv, nth_error (m_brackets (s_mgr st)) j = Some b ->
+    current_rung_and_level b = Ok (sl, lv) ->
+    nth_error (nth (j mod length rss) rss []) (current_rung b) = Some (length sl, lv) /\
+    NoDup (somes (map fst sl)) /\ (first_free_pos b <= length sl)%nat /\
+    (exists pos t, nth_error sl pos = Some (t, None)).
+Proof.
+  intros rss md ops st CK E j b sl lv Nb C. destruct (reach_inv _ _ _ _ CK E) as [I _].
+  assert (B := ic_b _ _ _ _ _ _ (iv_core _ _ _ _ I) _ _ Nb). assert (CO := binv_cur_ok _ _ _ _ _ _ B C).
+  destruct (crl_inv _ _ _ C) as [N _]. split.
+  - rewrite <- (bi_sys _ _ _ _ B), nth_error_map, N. reflexivity.
+  - split; [exact (co_nodup _ _ CO)|]. split; [exact (co_ffp _ _ CO)|exact (co_open _ _ CO)].
+Qed.
+
+Theorem never_blocks : forall rss md ops st, check_bracket_rungs rss = true ->
+  run_from rss md ops = Ok st ->
+  exists m' bid s, next_job (s_mgr st) = Ok (m', (bid, s)) /\
+    (m_primary (s_mgr st) <= bid)%nat /\
+    ((length (m_brackets m') = length (m_brackets (s_mgr st)) /\ (bid < length (m_brackets (s_mgr st)))%nat /\
+      (exists b, nth_error (m_brackets (s_mgr st)) bid = Some b /\ has_free_slot b = true) /\
+      (forall j bj, (m_primary (s_mgr st) <= j < bid)%nat -> nth_error (m_brackets (s_mgr st)) j = Some bj ->
+                    has_free_slot bj = false))
+     \/ (length (m_brackets m') = S (length (m_brackets (s_mgr st))) /\ bid = length (m_brackets (s_mgr st)) /\
+         forall j b, (m_primary (s_mgr st) <= j)%nat -> nth_error (m_brackets (s_mgr st)) j = Some b ->
+                     has_free_slot b = false)).
+Proof.
+  intros rss md ops st CK E. destruct (reach_inv _ _ _ _ CK E) as [I OK].
+  destruct (suggest_inv false _ _ _ true OK I) as [st' [sg [bid [s [m' [_ [_ [NJ [Pb [Cases _]]]]]]]]]]; [discriminate|].
+  exists m', bid, s. auto.
+Qed.
+
+Theorem promote_after_complete : forall rss md ops st m' bid s, check_bracket_rungs rss = true ->
+  run_from rss md ops = Ok st -> next_job (s_mgr st) = Ok (m', (bid, s)) ->
+  exists b', nth_error (m_brackets m') bid = Some b' /\ rung_index s = current_rung b' /\
+    is_bracket_complete b' = false /\
+    forall k, (k < rung_index s)%nat ->
+      exists sl lv, nth_error (rungs b') k = Some (Filled sl lv) /\
+                    Forall (fun x => snd x <> None) sl.
+Proof.
+  intros rss md ops st m' bid s CK E NJ. destruct (reach_inv _ _ _ _ CK E) as [I OK].
+  destruct (suggest_inv false _ _ _ true OK I) as [st' [sg [bid0 [s0 [m0 [_ [_ [NJ0 [_ [_ [[b' [Nb' [Er [NC Dn]]]] _]]]]]]]]]]]; [discriminate|].
+  rewrite NJ in NJ0. injection NJ0 as -> -> ->. exists b'. split; [exact Nb'|]. split; [exact Er|]. split; [exact NC|].
+  intros k Hk. destruct (Dn k Hk) as [sl [lv [N [F _]]]]. eauto.
+Qed.
+
+(* the searcher has no config for a new trial: suggest answers None, the job is reported as failed
+   at once (its slot holds NaN), nothing becomes pending *)
+Theorem searcher_failure_fills_slot : forall rss md ops st m' bid s, check_bracket_rungs rss = true ->
+  run_from rss md ops = Ok st -> next_job (s_mgr st) = Ok (m', (bid, s)) -> trial_id s = None ->
+  exists st', suggest st false = Ok (st', SNone) /\ s_pending st' = s_pending st /\
+    s_ntrials st' = s_ntrials st /\
+    exists b2 sl2 lv2, nth_error (m_brackets (s_mgr st')) bid = Some b2 /\
+      nth_error (rungs b2) (rung_index s) = Some (Filled sl2 lv2) /\
+      nth_error sl2 (slot_index s) = Some (None, Some NaN).
+Proof.
+  intros rss md ops st m' bid s CK E NJ Tn. destruct (reach_inv _ _ _ _ CK E) as [I OK].
+  destruct (suggest_inv false _ _ _ false OK I) as [st' [sg [bid0 [s0 [m0 [Es [_ [NJ0 [_ [_ [_ [Fl _]]]]]]]]]]]]; [reflexivity|].
+  rewrite NJ in NJ0. injection NJ0 as -> -> ->.
+  destruct (Fl eq_refl Tn) as [-> [Ep [En Slot]]]. exists st'. auto.
+Qed.
+
+Lemma In_lookup : forall t j (P : list (Z * job)), NoDup (map fst P) -> In (t, j) P -> lookup t P = Some j.
+Proof.
+  induction P as [|[k w] P IH]; intros N H; simpl in *; [contradiction|]. inversion N; subst.
+  destruct H as [H|H].
+  - inversion H; subst. rewrite Z.eqb_refl. reflexivity.
+  - destruct (Z.eqb k t) eqn:E; [|auto]. apply Z.eqb_eq in E. subst k. exfalso. apply H2.
+    apply (in_map fst) in H. exact H.
+Qed.
+
+Theorem pending_slots_have_trials : forall rss md ops st, check_bracket_rungs rss = true ->
+  run_from rss md ops = Ok st ->
+  forall j b sl lv pos t0, nth_error (m_brackets (s_mgr st)) j = Some b ->
+    current_rung_and_level b = Ok (sl, lv) -> (pos < first_free_pos b)%nat ->
+    nth_error sl pos = Some (t0, None) ->
+    exists t s, lookup t (s_pending st) = Some (j, s) /\ slot_index s = pos /\
+                rung_index s = current_rung b /\ level s = lv /\ trial_id s = Some t.
+Proof.
+  intros rss md ops st CK E j b sl lv pos t0 Nb C Hp Hn. destruct (reach_inv _ _ _ _ CK E) as [I _].
+  assert (Core := iv_core _ _ _ _ I).
+  destruct (ic_p4 _ _ _ _ _ _ Core _ _ _ _ _ _ Nb C Hp Hn) as [t [s [Hin Es]]].
+  exists t, s. split; [apply In_lookup; [exact (ic_keys _ _ _ _ _ _ Core)|exact Hin]|]. split; [exact Es|].
+  destruct (ic_p _ _ _ _ _ _ Core _ _ _ Hin) as [[b2 [sl2 [lv2 [t2 [N2 [C2 [E1 [E2 [E3 _]]]]]]]]] T _].
+  rewrite Nb in N2. inversion N2; subst b2. rewrite C in C2. inversion C2; subst. auto.
+Qed.
+
+Theorem trial_error_fills_slot : forall rss md ops st t bid s, check_bracket_rungs rss = true ->
+  run_from rss md ops = Ok st -> lookup t (s_pending st) = Some (bid, s) ->
+  exists st', on_trial_error st t = Ok st' /\ lookup t (s_pending st') = None /\
+    exists b' sl' lv', nth_error (m_brackets (s_mgr st')) bid = Some b' /\
+      nth_error (rungs b') (rung_index s) = Some (Filled sl' lv') /\
+      nth_error sl' (slot_index s) = Some (Some t, Some NaN).
+Proof.
+  intros rss md ops st t bid s CK E LK. destruct (reach_inv _ _ _ _ CK E) as [I OK].
+  destruct (answer_inv false _ _ _ _ _ _ NaN OK I LK) as [st' [Ea [_ [Slot _]]]].
+  unfold on_trial_error, report_as_failed. rewrite LK, Ea. eexists. split; [reflexivity|].
+  cbn [s_pending s_mgr]. split; [apply lookup_remove|exact Slot].
+Qed.
+
+(* the trials put into the next rung are the top list of the completed one *)
+Lemma promoted_are_top_gen : forall strict rss md st t bid s v b b' rem, rss_ok rss ->
+  Inv strict rss md st -> lookup t (s_pending st) = Some (bid, s) ->
+  nth_error (m_brackets (s_mgr st)) bid = Some b ->
+  bracket_on_result b (mkSIR (rung_index s) (level s) (slot_index s) (trial_id s) (Some v)) = Ok (b', Some rem) ->
+  exists sl lv vals nl ms top,
+    current_rung_and_level b = Ok (sl, lv) /\
+    occupied_values (upd sl (slot_index s) (Some t, Some v)) = Some vals /\
+    nth_error (rungs b) (S (current_rung b)) = Some (Future nl ms) /\
+    get_top_list md vals nl = (top, rem) /\
+    current_rung_and_level b' = Ok (map (fun x => (x, None)) top, ms) /\
+    current_rung b' = S (current_rung b) /\
+    NoDup (somes (map fst vals)) /\ (nl <= length vals)%nat /\
+    (strict = true -> NoDup (map fst vals)).
+Proof.
+  intros strict rss md st t bid s v b b' rem [NE CKs] I LK Nb R.
+  assert (Core := iv_core _ _ _ _ I). apply lookup_In in LK.
+  destruct (ic_p _ _ _ _ _ _ Core _ _ _ LK) as [[b2 [sl [lv [t0 [N2 [C [E1 [E2 [E3 [E4 [E5 K]]]]]]]]]]] T M].
+  rewrite Nb in N2. inversion N2; subst b2. clear N2.
+  assert (Bb := ic_b _ _ _ _ _ _ Core _ _ Nb).
+  assert (CKb : check_rungs (nth (bid mod length rss) rss []) = true) by (apply CKs, mod_lt_len, NE).
+  set (r := mkSIR (rung_index s) (level s) (slot_index s) (trial_id s) (Some v)) in *.
+  assert (TID : trial_id r = Some t) by exact T.
+  assert (FRESH : forall t', Some t = Some t' -> nth_error sl (slot_index r) = Some (None, None) -> ~ In t' (cur_ids b)).
+  { intros t' Et X. inversion Et; subst t'. simpl in X. rewrite E4 in X. inversion X; subst t0. eapply K; eauto. }
+  assert (NANF : Some t = None -> metric_val r = Some NaN) by discriminate.
+  assert (STR : strict = true -> Some t <> None) by (intros _; discriminate).
+  destruct (answer_facts _ _ _ _ _ _ _ _ _ _ Bb C R TID FRESH NANF STR) as [t1 [v1 [_ [_ [MV Rest]]]]].
+  cbv zeta in Rest. destruct Rest as [ND [_ [NN LEN]]].
+  assert (Bb' := binv_answer _ _ _ _ _ _ _ _ _ _ CKb Bb C R TID FRESH NANF STR).
+  simpl in MV. inversion MV; subst v1. cbv zeta in *. simpl slot_index in *.
+  destruct (bor_inv _ _ _ _ _ _ C R) as [_ [_ [_ [_ [v' [MV' Cases]]]]]].
+  simpl in MV'. inversion MV'; subst v'. cbv zeta in Cases. simpl trial_id in Cases. rewrite T in Cases. simpl slot_index in Cases.
+  destruct (crl_inv _ _ _ C) as [Nth _].
+  assert (Lc : (current_rung b < length (rungs b))%nat) by (eapply nth_error_lt; eauto).
+  destruct Cases as [[_ [_ X]]|[[_ [_ [_ X]]]|[F [nl [ms [vals [top [rem0 [N2 [OV [G [Eb X]]]]]]]]]]]]; try discriminate.
+  inversion X; subst rem0. rewrite nth_error_upd_neq in N2 by lia.
+  exists sl, lv, vals, nl, ms, top. split; [exact C|]. split; [exact OV|]. split; [exact N2|].
+  rewrite (bi_mode _ _ _ _ Bb) in G. split; [exact G|].
+  destruct (occupied_values_some _ _ OV) as [MF LV].
+  destruct (is_full_spec _ _ F) as [_ Occ].
+  assert (N1' : nth_error (rungs b') (current_rung b) = Some (Filled (upd sl (slot_index s) (Some t, Some v)) lv)).
+  { rewrite Eb. cbn [rungs]. rewrite nth_error_upd_neq by lia. apply nth_error_upd_eq. exact Lc. }
+  unfold slot, tid in *. split; [|split; [|split; [|split]]].
+  - rewrite Eb. apply crl_of_nth. cbn [rungs current_rung]. apply nth_error_upd_eq. rewrite upd_length.
+    apply nth_error_lt in N2. exact N2.
+  - rewrite Eb. reflexivity.
+  - rewrite MF. exact ND.
+  - destruct (check_rungs_spec _ CKb) as [_ [_ Dec]].
+    assert (S0 : nth_error (nth (bid mod length rss) rss []) (current_rung b) = Some (length sl, lv)).
+    { rewrite <- (bi_sys _ _ _ _ Bb), nth_error_map, Nth. reflexivity. }
+    assert (S1 : nth_error (nth (bid mod length rss) rss []) (S (current_rung b)) = Some (nl, ms)).
+    { rewrite <- (bi_sys _ _ _ _ Bb), nth_error_map, N2. reflexivity. }
+    assert (nl < length sl)%nat by (eapply Dec; eauto). rewrite LV, LEN. lia.
+  - intros St. rewrite MF. apply (strict_rung (upd sl (slot_index s) (Some t, Some v))).
+    + apply Forall_forall. exact Occ.
+    + exact ND.
+    + intros w Hw. exact (bi_strict _ _ _ _ Bb' St _ _ _ _ N1' Hw).
+Qed.
+
+Theorem promoted_are_top : forall rss md ops st t bid s v b b' rem, check_bracket_rungs rss = true ->
+  run_from rss md ops = Ok st -> lookup t (s_pending st) = Some (bid, s) ->
+  nth_error (m_brackets (s_mgr st)) bid = Some b ->
+  bracket_on_result b (mkSIR (rung_index s) (level s) (slot_index s) (trial_id s) (Some v)) = Ok (b', Some rem) ->
+  exists sl lv vals nl ms top,
+    current_rung_and_level b = Ok (sl, lv) /\
+    occupied_values (upd sl (slot_index s) (Some t, Some v)) = Some vals /\
+    nth_error (rungs b) (S (current_rung b)) = Some (Future nl ms) /\
+    get_top_list md vals nl = (top, rem) /\
+    current_rung_and_level b' = Ok (map (fun x => (x, None)) top, ms) /\
+    current_rung b' = S (current_rung b) /\
+    NoDup (somes (map fst vals)) /\ (nl <= length vals)%nat /\
+    (searcher_ok ops -> NoDup (map fst vals)).
+Proof.
+  intros rss md ops st t bid s v b b' rem CK E LK Nb R. destruct (reach_inv _ _ _ _ CK E) as [I OK].
+  destruct (promoted_are_top_gen false _ _ _ _ _ _ _ _ _ _ OK I LK Nb R)
+    as [sl [lv [vals [nl [ms [top [A1 [A2 [A3 [A4 [A5 [A6 [A7 [A8 _]]]]]]]]]]]]]].
+  exists sl, lv, vals, nl, ms, top. repeat (split; [assumption|]).
+  intro S. assert (I' := reach_inv_strict _ _ _ _ CK S E).
+  destruct (promoted_are_top_gen true _ _ _ _ _ _ _ _ _ _ OK I' LK Nb R)
+    as [sl2 [lv2 [vals2 [nl2 [ms2 [top2 [B1 [B2 [_ [_ [_ [_ [_ [_ B9]]]]]]]]]]]]]].
+  rewrite A1 in B1. inversion B1; subst sl2 lv2. rewrite A2 in B2. inversion B2; subst vals2. exact (B9 eq_refl).
+Qed.
